@@ -1,37 +1,9 @@
 ---------------------------- MODULE TraceRegistry ----------------------------
-(***************************************************************************)
-(* Trace validation of the load phase: what the library's loader and       *)
-(* merge return must be what the specification's composition rules give.   *)
-(*   merge  : merge_dicts(l, r)  = Merge(l, r), arguments left unchanged   *)
-(*   load   : registry of a directory of files = EffectiveDict/List(files) *)
-(*   dump   : the registries of the tree under test = what the Load        *)
-(*            machine published (VERIF_TREES)                              *)
-(***************************************************************************)
-EXTENDS Registry, Json, IOUtils
+(* Trace specification: one step per recorded event, total verdicts (operators in JudgeRegistry). *)
+EXTENDS JudgeRegistry
 
 Trace == JsonDeserialize(IOEnv.VERIF_TRACE)
 VARIABLE l
-
-MergeOutcome(e) ==
-    IF e.out.k = "exc" THEN "merge-raised"
-    ELSE IF ~TreeEq(e.out.res, Merge(e.l, e.r)) THEN "merge-result-differs"
-    ELSE IF ~TreeEq(e.out.l_after, e.l) \/ ~TreeEq(e.out.r_after, e.r) THEN "merge-changed-its-arguments"
-    ELSE "ok"
-
-LoadOutcome(e) ==
-    LET expected == IF e.kind = "dict" THEN EffectiveDict(e.files)
-                    ELSE [t |-> "l", v |-> EffectiveList(e.files)]
-    IN  IF e.out.k = "exc" THEN "load-raised"
-        ELSE IF ~TreeEq(e.out.res, expected) THEN "loaded-registry-differs"
-        ELSE "ok"
-
-DumpOutcome(e) ==
-    LET mine == JsonDeserialize(IOEnv.VERIF_TREES)
-    IN  IF e.out.k = "exc" THEN "dump-raised"
-        ELSE IF ~TreeEq(e.out.iban, mine.iban) THEN "country-table-differs"
-        ELSE IF Len(e.out.bank.v) # Len(mine.bank.v) THEN "bank-list-length-differs"
-        ELSE IF ~TreeEq(e.out.bank, mine.bank) THEN "bank-list-differs"
-        ELSE "ok"
 
 Verdict(e) ==
     CASE e.op = "merge" -> MergeOutcome(e)
